@@ -164,7 +164,7 @@ class ServerDownloadTheorem(Contract):
         sets = [e for e in s.ev if e[0] == "set_data"]
         if len(sets) != 1:
             return False
-        told = And(S.eq(sets[0][1], p["index"]), S.eq(sets[0][2], p["sub"]), sets[0][4] is True,
+        told = And(S.eq(sets[0][1], p["index"]), S.eq(sets[0][2], p["sub"]), S.is_true(sets[0][4]),
                    _prefix_or_empty(sets[0][3], p["data"], S.blen(p["data"])) if isinstance(p["data"], LBytes)
                    else S.same_bytes(sets[0][3], p["data"]))
         if p["refused"]:
